@@ -884,6 +884,9 @@ class FnExec:
         k = self.loop_ids[id(s)]
         lspec = self.spec.loops.get(k)
         if lspec is None: raise ContractDrift(f"{self.qual}: loop {k} (line {s.lineno}) has no invariant in the sidecar")
+        if lspec.get("iterates") and ast.unparse(s.iter).replace(" ", "") != lspec["iterates"].replace(" ", ""):
+            # the invariants of this loop presuppose WHICH sequence is visited in WHICH order (e.g. `c == cover[IT]`); another iterated expression cannot be bound to them
+            raise ContractDrift(f"{self.qual}: loop {k} iterates `{ast.unparse(s.iter)}`, the contract was written for `{lspec['iterates']}`")
         for hook in self.reg.loop_hooks:
             r = hook(self, s, st, pc, k, lspec)
             if r is not None: return r
